@@ -245,6 +245,50 @@ func pxRouting() []pxScenario {
 	return out
 }
 
+// a peer reached by dial on demand whose connection then fails (read / write / the dial itself): later
+// envelopes for the name must make the proxy dial again and arrive on the new connection
+func pxDialThenFail(how string, variant int) pxScenario {
+	b := &pxBuilder{tok: 600}
+	b.add(att(1)...)
+	b.add(att(2)...)
+	name := int64(4)
+	b.add(b.send(1, name))
+	if how == "dialerror" {
+		b.add(PAct{Op: "dial", N: name, M: "fail"})
+	} else {
+		b.add(PAct{Op: "dial", N: name, M: "ok"})
+		b.add(b.send(2, name))
+		if variant%2 == 1 {
+			b.add(b.send(4, 1)) // the dialled peer answers
+		}
+		switch how {
+		case "read":
+			b.add(PAct{Op: "failread", N: name})
+		case "write":
+			b.add(PAct{Op: "setw", N: name, M: "fail"})
+			b.add(b.send(1, name))
+		case "write-blocked":
+			b.add(PAct{Op: "setw", N: name, M: "block"})
+			b.add(b.send(1, name))
+			b.add(b.send(2, name))
+			b.add(PAct{Op: "setw", N: name, M: "fail"})
+		}
+	}
+	for round := 0; round < 1+variant%2; round++ {
+		b.add(b.send(1, name)) // must dial again
+		b.add(b.send(2, name))
+		b.add(PAct{Op: "dial", N: name, M: "ok"})
+		b.add(b.send(1, name))
+		b.add(b.send(4, 2))
+		if round == 0 && variant%2 == 1 {
+			b.add(PAct{Op: "failread", N: name}) // and once more
+		}
+	}
+	b.add(b.send(2, 1))
+	return pxScenario{Icp: variant % 3 * 2 % 5, ByRef: variant%2 == 0, Steps: b.steps,
+		Tags: []string{"dial-then-fail", "dialled-fails=" + how}}
+}
+
 func pxRandomWalk(r *rand.Rand, n int, faults bool) pxScenario {
 	b := &pxBuilder{tok: 1000}
 	names := []int64{1, 2, 3, 4, 5, 6, 102, 7}
@@ -353,6 +397,12 @@ func c16Scenarios() []pxScenario {
 				}
 				out = append(out, pxBurst(n, mode, s, (n+s)%2*2))
 			}
+		}
+	}
+	// 3b. dial on demand, then the dialled connection fails, then more traffic for the name
+	for _, how := range []string{"read", "write", "write-blocked", "dialerror"} {
+		for v := 0; v < 4; v++ {
+			out = append(out, pxDialThenFail(how, v))
 		}
 	}
 	// 4. routing fields x interceptors
